@@ -301,3 +301,48 @@ func HarnessC19Detect() {
 	vndAssert((err != nil) == anyErr, "detect-reports-detector-errors")
 	c19CheckAttrs(r, want, "detect")
 }
+
+// C19.sizes: the union is exact for every size (attribute sets use fixed-size
+// arrays up to a threshold and a generic path above it): na + nb distinct keys
+var c19ManyKeys = []attribute.Key{"k00", "k01", "k02", "k03", "k04", "k05", "k06", "k07", "k08", "k09", "k10", "k11", "k12", "k13", "k14", "k15"}
+
+func HarnessC19Sizes() {
+	na, nb := vndChoice(9), vndChoice(9)
+	base := vndI64()
+	var ka, kb []attribute.KeyValue
+	for i := 0; i < na; i++ {
+		ka = append(ka, c19ManyKeys[2*i].Int64(base+int64(2*i)))
+	}
+	for i := 0; i < nb; i++ {
+		kb = append(kb, c19ManyKeys[2*i+1].Int64(base+int64(2*i+1)))
+	}
+	r, err := Merge(NewSchemaless(ka...), NewSchemaless(kb...))
+	vndReach("merged")
+	vndAssert(err == nil, "merge-no-error")
+	vndAssert(r.Len() == na+nb, "merge-is-exactly-the-union")
+	for i := 0; i < na; i++ {
+		v, ok := r.Set().Value(c19ManyKeys[2*i])
+		vndAssert(ok && v.AsInt64() == base+int64(2*i), "merge-never-loses-an-attribute")
+	}
+	for i := 0; i < nb; i++ {
+		v, ok := r.Set().Value(c19ManyKeys[2*i+1])
+		vndAssert(ok && v.AsInt64() == base+int64(2*i+1), "merge-never-loses-an-attribute")
+	}
+}
+
+// C19.invalidonly: resources whose attributes are all invalid are independent
+// values: giving one a schema URL does not change another, merging with one is
+// the identity
+func HarnessC19InvalidOnly() {
+	a := NewWithAttributes("https://s1", attribute.String("", "x")) // only an invalid (empty-key) attribute
+	b := NewSchemaless(attribute.String("", "y"))
+	vndAssert(b.SchemaURL() == "", "schemaless-resource-has-no-schema-url")
+	vndAssert(a.SchemaURL() == "https://s1", "schema-url-kept")
+	full := NewWithAttributes("https://s2", attribute.Int64("k", vndI64()))
+	r, err := Merge(full, b)
+	vndReach("merged")
+	vndAssert(err == nil, "merge-with-empty-is-the-identity")
+	vndAssert(r != nil && r.SchemaURL() == "https://s2" && r.Len() == 1, "merge-with-empty-is-the-identity")
+	r2, err2 := Merge(b, full)
+	vndAssert(err2 == nil && r2 != nil && r2.SchemaURL() == "https://s2" && r2.Len() == 1, "merge-with-empty-is-the-identity")
+}
